@@ -1569,4 +1569,128 @@ theorem embeds_comments (f : ListFormatting) (sp : SeparatorPlace) :
       rw [this]
       exact (embeds_itemContent f sp i rest.isEmpty item hs).append (ih (i + 1))
 
+/-! ### A comment-free list written horizontally -/
+
+/-- An item without comments whose item string is present and not empty. -/
+def Plain (it : ListItem) : Prop :=
+  it.preComment = none ∧ it.postComment = none ∧ ∃ s, it.item = some s ∧ s ≠ []
+
+/-- What the loop appends for plain items from index `i` on in a horizontal comma list without a
+trailing separator: a space in front of every item but the first, a comma after every item but the last. -/
+def horizGo : Nat → List ListItem → List Char
+  | _, [] => []
+  | i, it :: rest =>
+    (if i = 0 then [] else [' ']) ++ it.innerAsRef ++ (if rest.isEmpty then [] else [',']) ++
+      horizGo (i + 1) rest
+
+theorem step_plain_horizontal {f : ListFormatting} (rc : Rc) (ind : List Char) (i : Nat)
+    (it : ListItem) (rest : List ListItem) (st : State)
+    (hf : f.tactic = .horizontal) (hsep : f.separator = [','])
+    (hts : st.trailingSeparator = false) (hp : Plain it) :
+    (step f rc ind .back i it rest st).map (fun s => (render s.pieces, s.trailingSeparator)) =
+      some (render st.pieces ++ ((if i = 0 then [] else [' ']) ++ it.innerAsRef ++
+        (if rest.isEmpty then [] else [','])), false) := by
+  obtain ⟨hpre, hpost, s, hs, hne⟩ := hp
+  have hsub : it.isSubstantial = true := by
+    simp [ListItem.isSubstantial, ListItem.emptyOpt, hs, hne]
+  by_cases hi : i = 0 <;> cases hr : rest.isEmpty <;>
+    simp [step, hs, hsub, stepBody, tacticBlank, hf, preCommentPieces, hpre, horizontalPostPieces, hpost,
+      verticalPostPieces, itemPieces, backSepPieces, preserveNewlinePieces, mkEnv, separate0, hts,
+      SeparatorPlace.isFront, SeparatorPlace.isBack, hsep, hi, hr, ListItem.innerAsRef, bl]
+
+theorem loop_plain_horizontal {f : ListFormatting} (rc : Rc) (ind : List Char)
+    (hf : f.tactic = .horizontal) (hsep : f.separator = [',']) :
+    ∀ (items : List ListItem) (i : Nat) (st : State), (∀ it ∈ items, Plain it) →
+      st.trailingSeparator = false →
+      (loop f rc ind .back i items st).map (fun s => render s.pieces) =
+        some (render st.pieces ++ horizGo i items) := by
+  intro items
+  induction items with
+  | nil => intro i st _ _; simp [loop, horizGo]
+  | cons it rest ih =>
+    intro i st hp hts
+    have h1 := step_plain_horizontal rc ind i it rest st hf hsep hts (hp it List.mem_cons_self)
+    simp only [Option.map_eq_some_iff, Prod.mk.injEq] at h1
+    obtain ⟨st1, hst1, hr1, hts1⟩ := h1
+    simp only [loop, hst1]
+    rw [ih (i + 1) st1 (fun x hx => hp x (List.mem_cons_of_mem _ hx)) hts1, hr1]
+    simp [horizGo, List.append_assoc]
+
+theorem strWidth_cons (x : Char) (l : List Char) :
+    strWidth (x :: l) = (if x = '\n' || (x = '\r' && l.head? = some '\n') then 0 else 1) + strWidth l := rfl
+
+theorem strWidth_cons_plain (x : Char) (l : List Char) (h1 : x ≠ '\n') (h2 : x ≠ '\r') :
+    strWidth (x :: l) = 1 + strWidth l := by
+  simp [strWidth_cons, h1, h2]
+
+/-- `str_width` is additive except across a `\r` | `\n` boundary. -/
+theorem strWidth_append (a b : List Char) (hb : b.head? ≠ some '\n') :
+    strWidth (a ++ b) = strWidth a + strWidth b := by
+  induction a with
+  | nil => simp [strWidth]
+  | cons x xs ih =>
+    cases xs with
+    | nil =>
+      simp only [List.cons_append, List.nil_append, strWidth_cons, List.head?_nil]
+      have : (x = '\r' && b.head? = some '\n') = false := by simp [hb]
+      simp [this, strWidth]
+    | cons y ys =>
+      rw [List.cons_append, strWidth_cons x ((y :: ys) ++ b), strWidth_cons x (y :: ys), ih]
+      simp only [List.cons_append, List.head?_cons, Nat.add_assoc]
+      congr 1
+
+theorem horizGo_head (i : Nat) (hi : i ≠ 0) (items : List ListItem) :
+    (horizGo i items).head? ≠ some '\n' := by
+  cases items with
+  | nil => simp [horizGo]
+  | cons it rest => simp [horizGo, hi]
+
+theorem strWidth_horizGo_succ (items : List ListItem) :
+    ∀ i, i ≠ 0 → strWidth (horizGo i items) + (if items.isEmpty then 0 else 1) =
+      (items.map fun it => strWidth it.innerAsRef).sum + 2 * items.length := by
+  induction items with
+  | nil => intro i _; simp [horizGo, strWidth]
+  | cons it rest ih =>
+    intro i hi
+    have hrest := ih (i + 1) (by omega)
+    have hh := horizGo_head (i + 1) (by omega) rest
+    simp only [horizGo, hi, ↓reduceIte, List.isEmpty_cons, Bool.false_eq_true, List.map_cons,
+      List.sum_cons, List.length_cons, List.cons_append, List.nil_append]
+    rw [strWidth_cons_plain ' ' _ (by decide) (by decide)]
+    cases hr : rest.isEmpty with
+    | true =>
+      have : rest = [] := by simpa using hr
+      subst this
+      simp [horizGo]
+      omega
+    | false =>
+      simp only [hr, Bool.false_eq_true, ↓reduceIte] at hrest ⊢
+      rw [List.append_assoc, strWidth_append _ _ (by simp), List.cons_append, List.nil_append,
+        strWidth_cons_plain ',' _ (by decide) (by decide)]
+      omega
+
+/-- The width of a plain list written horizontally is what `definitive_tactic` measures. -/
+theorem strWidth_horizGo_zero (items : List ListItem) :
+    strWidth (horizGo 0 items) = (items.map fun it => strWidth it.innerAsRef).sum + 2 * (items.length - 1) := by
+  cases items with
+  | nil => simp [horizGo, strWidth]
+  | cons it rest =>
+    have hrest := strWidth_horizGo_succ rest 1 (by omega)
+    simp only [horizGo, ↓reduceIte, List.nil_append, List.map_cons, List.sum_cons, List.length_cons,
+      Nat.add_sub_cancel, Nat.zero_add]
+    cases hr : rest.isEmpty with
+    | true =>
+      have : rest = [] := by simpa using hr
+      subst this
+      simp [horizGo]
+    | false =>
+      simp only [hr, Bool.false_eq_true, ↓reduceIte] at hrest ⊢
+      rw [List.append_assoc, strWidth_append _ _ (by simp), List.cons_append, List.nil_append,
+        strWidth_cons_plain ',' _ (by decide) (by decide)]
+      omega
+
+theorem totalItemWidth_plain {it : ListItem} (h : Plain it) : totalItemWidth it = strWidth it.innerAsRef := by
+  obtain ⟨h1, h2, s, hs, _⟩ := h
+  simp [totalItemWidth, h1, h2, hs, commentLen, ListItem.innerAsRef]
+
 end RF.Lemmas.Lists
